@@ -29,8 +29,8 @@ ASSUMPTIONS = [
 ]
 COMPONENTS = {"real": ["pyxel Processor.has/get/set, _get_obj_att, eval_entry, Observation.validate_steps, apply_overrides, run_mode"], "stub": []}
 BUDGET = {"quick": {"n": 960, "wall": 100, "determinism": 4}, "thorough": {"n": 24000, "wall": 1500, "determinism": 12}}
-BAD = ["misspelt-field", "misspelt-section", "truncated", "extended", "wrong-group", "wrong-model", "arguments-typo", "undeclared-arg", "model-as-key"]
-REQUIRED_REACH = ["op:set", "op:get", "op:has", "sys:sweep-bad", "sys:override-bad", "sys:sweep-disabled-model", "sys:sweep-ok", "sys:override-ok", "text_values"] + ["bad:" + b for b in BAD]
+BAD = ["other-detector-field", "misspelt-field", "misspelt-section", "truncated", "extended", "wrong-group", "wrong-model", "arguments-typo", "undeclared-arg", "model-as-key"]
+REQUIRED_REACH = ["valid_on_other_detector_first", "duplicate_model_names", "op:set", "op:get", "op:has", "sys:sweep-bad", "sys:override-bad", "sys:sweep-disabled-model", "sys:sweep-ok", "sys:override-ok", "text_values"] + ["bad:" + b for b in BAD]
 
 DET_FIELDS = {
     "detector.geometry.row": "int+", "detector.geometry.col": "int+", "detector.geometry.total_thickness": "thick", "detector.geometry.pixel_vert_size": "size", "detector.geometry.pixel_horz_size": "size",
@@ -83,7 +83,13 @@ def valid_keys(scn):
     return keys
 
 
+APD_ONLY = ["detector.characteristics.avalanche_gain", "detector.characteristics.pixel_reset_voltage"]
+NON_APD_ONLY = ["detector.characteristics.pre_amplification"]
+
+
 def make_bad(rng, scn, cls):
+    if cls == "other-detector-field":
+        return rng.choice(NON_APD_ONLY if scn["detector"]["type"] == "APD" else APD_ONLY)
     models = world.all_models(scn)
     g, m = rng.choice(models)
     arg = rng.choice(sorted(m["arguments"]))
@@ -118,6 +124,15 @@ def generate(rng, tier):
     }
     for _, m in world.all_models(scn):
         m["arguments"] = {k: v for k, v in m["arguments"].items() if v is not None or k == "tag"}
+    groups_used = [g for g in ref.CANONICAL_GROUPS if scn["pipeline"].get(g)]
+    if len(groups_used) >= 2 and rng.random() < 0.3:
+        # the same model name in two groups (the key carries the group, so both stay addressable)
+        g1, g2 = groups_used[0], groups_used[-1]
+        shared = scn["pipeline"][g1][0]["name"]
+        scn["pipeline"][g2][-1]["name"] = shared
+        scn["pipeline"][g1][0]["enabled"] = True
+        scn["pipeline"][g2][-1]["enabled"] = False
+        scn["dup_names"] = [g1, g2, shared]
     vk = valid_keys(scn)
     keys = sorted(vk)
     for _ in range(rng.randint(4, 12)):
@@ -131,7 +146,11 @@ def generate(rng, tier):
             scn["ops"].append({"op": "has", "key": rng.choice(keys)})
         else:
             cls = rng.choice(BAD)
-            scn["ops"].append({"op": rng.choice(["set", "set", "has"]), "key": make_bad(rng, scn, cls), "bad": cls, "value": rng.choice([1, 2.5, "3", "txt"])})
+            key = make_bad(rng, scn, cls)
+            if cls == "other-detector-field":
+                # history: the same key was legitimately used on a detector of the other type just before
+                scn["ops"].append({"op": "set", "key": key, "value": rng.choice([2.0, 3.0]), "on_other": True})
+            scn["ops"].append({"op": rng.choice(["set", "set", "has"]), "key": key, "bad": cls, "value": rng.choice([1, 2.5, "3", "txt"])})
     # system-level injection
     kind = rng.choice(["sweep-bad", "sweep-bad", "override-bad", "override-bad", "sweep-disabled-model", "sweep-ok", "override-ok"])
     sysop = {"kind": kind}
@@ -140,6 +159,9 @@ def generate(rng, tier):
     if kind in ("sweep-bad", "override-bad"):
         cls = rng.choice(BAD)
         sysop.update({"bad": cls, "key": make_bad(rng, scn, cls)})
+    elif kind == "sweep-disabled-model" and scn.get("dup_names"):
+        g1, g2, shared = scn["dup_names"]
+        sysop["key"] = f"pipeline.{g2}.{shared}.arguments.level"
     elif kind == "sweep-disabled-model":
         if not dis:
             g, m = world.all_models(scn)[-1]
@@ -280,9 +302,18 @@ def execute(scn):
     def bad(clause, sig, detail):
         viol.append({"clause": clause, "signature": sig, "detail": detail})
 
+    other_spec = dict(scn["detector"], type=("CCD" if scn["detector"]["type"] == "APD" else "APD"))
+    other = Processor(detector=world.build_detector(other_spec), pipeline=world.build_pipeline(scn["pipeline"]))
     snap = snapshot(proc, keys)
     census = attr_census(proc)
     for i, op in enumerate(scn["ops"]):
+        if op.get("on_other"):
+            try:
+                other.set(op["key"], op["value"])
+                stats["valid_on_other_detector_first"] = 1
+            except Exception as exc:  # noqa: BLE001
+                bad("C08.set", "C08.set-valid-raises@other-detector", {"op": i, "key": op["key"], "exc": repr(exc)[:200]})
+            continue
         stats["op:" + op["op"]] = stats.get("op:" + op["op"], 0) + 1
         key = op["key"]
         cls = op.get("bad")
@@ -358,6 +389,8 @@ def execute(scn):
 
     # ---- system-level injection on fresh objects
     sysop = scn["sys"]
+    if scn.get("dup_names"):
+        stats["duplicate_model_names"] = 1
     stats["sys:" + sysop["kind"]] = 1
     if sysop.get("bad"):
         stats["bad:" + sysop["bad"]] = 1
